@@ -150,6 +150,8 @@ def split_top(spec):
     inner = None
     if spec.startswith("iter(") and spec.endswith(")"):
         return split_top(spec[5:-1])
+    if spec.startswith("TC(") and spec.endswith(")") and _balanced(spec[3:-1]):
+        return split_top(spec[3:-1])
     if spec.startswith("[") and spec.endswith("]"):
         inner, sep = spec[1:-1], ","
     elif spec.startswith("(") and spec.endswith(")") and _balanced(spec[1:-1]):
@@ -170,7 +172,7 @@ def split_top(spec):
     parts.append(cur.strip())
     out = []
     for part in parts:
-        out += split_top(part) if (part.startswith("(") or part.startswith("[")) else [part]
+        out += split_top(part) if part.startswith(("(", "[", "TC(", "iter(")) else [part]
     return out
 
 
@@ -347,7 +349,7 @@ def unit(p, item, tier, seed):
                             REPLAY_HEAD + circ.circ_src(c) + "\nbad=[]\nfor s in ['RRG()', 'RRG(allow_inputs_removal=True)', 'MU()', 'MD()', 'ME()', 'cleanup(False)', 'cleanup(True)', '(MU() | MD() | ME())']:\n"
                             "    try:\n        apply_spec(s, c)\n    except Exception as e:\n        bad.append((s, type(e).__name__))\nprint(bad); sys.exit(1 if bad else 0)\n")
                 break
-        for spec in rnd.sample(specs, min(len(specs), 8 if tier == "quick" else 25)) + [rnd.choice(passes.ONE_SHOT)]:
+        for spec in rnd.sample(specs, min(len(specs), 8 if tier == "quick" else 25)) + [rnd.choice(passes.ONE_SHOT)] + passes.CONSTRUCTED[:2] + [rnd.choice(passes.CONSTRUCTED[2:])]:
             if ("ME()" in spec or spec == "cleanup(True)") and len(c.inputs) > 6:
                 continue
             pipeline_checks(p, name, c, spec)
